@@ -1,8 +1,10 @@
 package main
 
-// Geometry menu of C05: a scene of about 550 m x 400 m near Granary Square on
-// a local grid (1 unit = 1e-4 degrees of latitude, 1.6e-4 degrees of
-// longitude, about 11.1 m both ways).
+// Geometry menu of C05: a scene of about 550 m x 400 m on a local lat/lng grid
+// (1 unit = 1e-4 degrees of latitude and 1e-4/cos(lat) degrees of longitude,
+// about 11.1 m both ways). The same scene is laid out at every place of
+// places() (places.go): near Granary Square (the home place; S2 face 2, on a
+// face axis) and at places where S2 cells have other shapes.
 
 import (
 	"fmt"
@@ -15,17 +17,35 @@ import (
 
 const ns = "diagonal.works/test"
 
-const (
-	lat0 = 51.5350
-	lng0 = -0.1250
-)
+// place is the origin and the scale of a local grid.
+type place struct {
+	name       string
+	lat0, lng0 float64 // degrees, grid origin
+	dlng       float64 // degrees of longitude per grid unit (latitude: 1e-4)
+}
 
 // P returns the S2 point of grid position (x, y), by way of a lat/lng exactly
 // as a feature built from that lat/lng reports it.
-func P(x, y float64) s2.Point { return s2.PointFromLatLng(LL(x, y)) }
+func (pl *place) P(x, y float64) s2.Point { return s2.PointFromLatLng(pl.LL(x, y)) }
 
-func LL(x, y float64) s2.LatLng {
-	return s2.LatLngFromDegrees(lat0+y*1e-4, lng0+x*1.6e-4)
+func (pl *place) LL(x, y float64) s2.LatLng {
+	return stableLL(s2.LatLngFromDegrees(pl.lat0+y*1e-4, pl.lng0+x*pl.dlng))
+}
+
+// stableLL returns a lat/lng (at most a few ulps from ll) that survives the
+// conversion to degrees and back unchanged: a point feature reports its
+// position through the decimal degrees of its tag, a path vertex directly, and
+// the menu wants both to report the same S2 point for the same position (the
+// world is checked against the menu, vertex by vertex, when it is built).
+func stableLL(ll s2.LatLng) s2.LatLng {
+	for i := 0; i < 16; i++ {
+		next := s2.LatLngFromDegrees(ll.Lat.Degrees(), ll.Lng.Degrees())
+		if next == ll {
+			return ll
+		}
+		ll = next
+	}
+	panic("lat/lng does not settle under degrees conversion")
 }
 
 type gkind int
@@ -78,8 +98,9 @@ func (g *geom) s2polygons() []*s2.Polygon {
 }
 
 type feat struct {
-	name string
-	id   b6.FeatureID
+	name  string
+	probe string // cell-relative scenes: the kind of probe, without its corner / edge number
+	id    b6.FeatureID
 	g    *geom
 	lls  []s2.LatLng // point / path vertices as lat/lngs
 }
@@ -112,19 +133,19 @@ func (f *feat) ingest() ingest.Feature {
 
 type xy struct{ x, y float64 }
 
-func ring(c ...xy) []s2.Point {
+func (pl *place) ring(c ...xy) []s2.Point {
 	out := make([]s2.Point, len(c))
 	for i, v := range c {
-		out[i] = P(v.x, v.y)
+		out[i] = pl.P(v.x, v.y)
 	}
 	return out
 }
 
-func rect(x0, y0, x1, y1 float64) []s2.Point {
-	return ring(xy{x0, y0}, xy{x1, y0}, xy{x1, y1}, xy{x0, y1})
+func (pl *place) rect(x0, y0, x1, y1 float64) []s2.Point {
+	return pl.ring(xy{x0, y0}, xy{x1, y0}, xy{x1, y1}, xy{x0, y1})
 }
 
-func star(cx, cy, rOut, rIn float64, n int) []s2.Point {
+func (pl *place) star(cx, cy, rOut, rIn float64, n int) []s2.Point {
 	var c []xy
 	for i := 0; i < 2*n; i++ {
 		r := rOut
@@ -134,59 +155,76 @@ func star(cx, cy, rOut, rIn float64, n int) []s2.Point {
 		a := float64(i)*math.Pi/float64(n) + 0.1
 		c = append(c, xy{cx + r*math.Cos(a), cy + r*math.Sin(a)})
 	}
-	return ring(c...)
+	return pl.ring(c...)
 }
 
-func ngon(cx, cy, r float64, n int) []s2.Point {
+func (pl *place) ngon(cx, cy, r float64, n int) []s2.Point {
 	var c []xy
 	for i := 0; i < n; i++ {
 		a := float64(i)*2*math.Pi/float64(n) + 0.05
 		c = append(c, xy{cx + r*math.Cos(a), cy + r*math.Sin(a)})
 	}
-	return ring(c...)
+	return pl.ring(c...)
 }
 
-// named polygons of the menu (each: loops, first the shell)
-var (
-	sqA      = [][]s2.Point{rect(0, 0, 4, 4)}
-	uShape   = [][]s2.Point{ring(xy{8, 0}, xy{16, 0}, xy{16, 8}, xy{13, 8}, xy{13, 3}, xy{11, 3}, xy{11, 8}, xy{8, 8})}
-	holed    = [][]s2.Point{rect(20, 0, 28, 8), rect(23, 3, 25, 5)}
-	lShape   = [][]s2.Point{ring(xy{0, 12}, xy{8, 12}, xy{8, 15}, xy{3, 15}, xy{3, 20}, xy{0, 20})}
-	donut    = [][]s2.Point{rect(12, 12, 24, 24), rect(15, 15, 21, 21)}
-	island   = [][]s2.Point{rect(17, 17, 19, 19)}
-	nested3  = [][]s2.Point{rect(30, 12, 42, 24), rect(33, 15, 39, 21), rect(35, 17, 37, 19)}
-	star20   = [][]s2.Point{star(36, 4, 4.2, 1.5, 10)}
-	gon18    = [][]s2.Point{ngon(6, 27, 2.8, 18)}
-	lHole    = [][]s2.Point{rect(14, 26, 26, 30.5), ring(xy{16, 27}, xy{24, 27}, xy{24, 28}, xy{18, 28}, xy{18, 29.5}, xy{16, 29.5})}
-	starHole = [][]s2.Point{ngon(36, 4, 8.5, 20), star(36, 4, 6.5, 5.2, 10)} // ring around star20, its hole a star
-)
-
+// scene is one world's worth of features. Two kinds: the grid scene
+// (buildScene) and the cell-relative scenes (cellmenu.go).
 type scene struct {
+	name   string
+	pl     *place
+	step   int // grid scenes: spacing of the point grid
 	feats  []*feat
-	probes []xy
+	probes []xy       // grid scenes: positions of the point grid
+	frame  *cellFrame // cell-relative scenes
 }
 
-func buildScene(tier string) *scene {
-	s := &scene{}
-	var n [3]uint64
-	add := func(name string, g *geom, lls []s2.LatLng) *feat {
-		n[g.kind]++
-		t := [...]b6.FeatureType{b6.FeatureTypePoint, b6.FeatureTypePath, b6.FeatureTypeArea}[g.kind]
-		f := &feat{name: name, id: b6.FeatureID{Type: t, Namespace: ns, Value: n[g.kind]}, g: g, lls: lls}
-		s.feats = append(s.feats, f)
-		return f
-	}
-	area := func(name string, polys ...[][]s2.Point) { add(name, areaGeom(polys), nil) }
+// adder numbers the features of a scene per type.
+type adder struct {
+	s *scene
+	n [3]uint64
+}
+
+func (a *adder) add(name, probe string, g *geom, lls []s2.LatLng) *feat {
+	a.n[g.kind]++
+	t := [...]b6.FeatureType{b6.FeatureTypePoint, b6.FeatureTypePath, b6.FeatureTypeArea}[g.kind]
+	f := &feat{name: name, probe: probe, id: b6.FeatureID{Type: t, Namespace: ns, Value: a.n[g.kind]}, g: g, lls: lls}
+	a.s.feats = append(a.s.feats, f)
+	return f
+}
+
+// buildScene lays the grid scene out at a place; step is the spacing of the
+// point grid (1, 2 or 4 units).
+func buildScene(pl *place, step int) *scene {
+	s := &scene{name: "scene@" + pl.name, pl: pl, step: step}
+	ad := &adder{s: s}
+	ring, rect, star, ngon := pl.ring, pl.rect, pl.star, pl.ngon
+	// named polygons of the menu (each: loops, first the shell)
+	var (
+		sqA      = [][]s2.Point{rect(0, 0, 4, 4)}
+		uShape   = [][]s2.Point{ring(xy{8, 0}, xy{16, 0}, xy{16, 8}, xy{13, 8}, xy{13, 3}, xy{11, 3}, xy{11, 8}, xy{8, 8})}
+		holed    = [][]s2.Point{rect(20, 0, 28, 8), rect(23, 3, 25, 5)}
+		lShape   = [][]s2.Point{ring(xy{0, 12}, xy{8, 12}, xy{8, 15}, xy{3, 15}, xy{3, 20}, xy{0, 20})}
+		donut    = [][]s2.Point{rect(12, 12, 24, 24), rect(15, 15, 21, 21)}
+		island   = [][]s2.Point{rect(17, 17, 19, 19)}
+		nested3  = [][]s2.Point{rect(30, 12, 42, 24), rect(33, 15, 39, 21), rect(35, 17, 37, 19)}
+		star20   = [][]s2.Point{star(36, 4, 4.2, 1.5, 10)}
+		gon18    = [][]s2.Point{ngon(6, 27, 2.8, 18)}
+		lHole    = [][]s2.Point{rect(14, 26, 26, 30.5), ring(xy{16, 27}, xy{24, 27}, xy{24, 28}, xy{18, 28}, xy{18, 29.5}, xy{16, 29.5})}
+		starHole = [][]s2.Point{ngon(36, 4, 8.5, 20), star(36, 4, 6.5, 5.2, 10)} // ring around star20, its hole a star
+	)
+	area := func(name string, polys ...[][]s2.Point) { ad.add(name, "", areaGeom(polys), nil) }
 	path := func(name string, c ...xy) {
 		var ps []s2.Point
 		var ls []s2.LatLng
 		for _, v := range c {
-			ps = append(ps, P(v.x, v.y))
-			ls = append(ls, LL(v.x, v.y))
+			ps = append(ps, pl.P(v.x, v.y))
+			ls = append(ls, pl.LL(v.x, v.y))
 		}
-		add(name, pathGeom(ps), ls)
+		ad.add(name, "", pathGeom(ps), ls)
 	}
-	point := func(name string, v xy) { add(name, pointGeom(P(v.x, v.y)), []s2.LatLng{LL(v.x, v.y)}) }
+	point := func(name string, v xy) {
+		ad.add(name, "", pointGeom(pl.P(v.x, v.y)), []s2.LatLng{pl.LL(v.x, v.y)})
+	}
 
 	area("area:square+U+holed (3 polygons)", sqA, uShape, holed)
 	area("area:L", lShape)
@@ -210,10 +248,6 @@ func buildScene(tier string) *scene {
 	path("path:through-star-arms", xy{31, 4.2}, xy{41, 4.4})
 	path("path:inside-island", xy{17.5, 17.5}, xy{18.5, 18.5}, xy{17.6, 18.4})
 
-	step := 2
-	if tier == "thorough" {
-		step = 1
-	}
 	for j := -6; j <= 30; j += step {
 		for i := -6; i <= 44; i += step {
 			v := xy{float64(i) + 0.37, float64(j) + 0.61}
